@@ -3,6 +3,7 @@ package main
 import (
 	"bytes"
 	"fmt"
+	"runtime"
 	"sort"
 	"strconv"
 	"strings"
@@ -1061,6 +1062,7 @@ func rawJobsC01(tier string) []string {
 	add(base+",mss=24,w=2x36,pd=3x20,ts=1,b=1", 2)
 	add(base+",mss=24,w=72,pd=3x20,psack=1,sack=1,active=0,b=1", 2)
 	add(base+",mss=24,w=48,iss=4294967270,piss=2147483640,pd=2x20,b=1", 2)
+	add(base+",mss=536,w=700,pd=2x300,b=1", 2)
 	if tier == "thorough" {
 		add(base+",mss=24,w=72,pd=3x20,v6=1,mtu=1280,b=1", 2)
 		add(base+",mss=24,w=48,pd=2x20,b=2", 16)
@@ -1081,6 +1083,7 @@ func rawRunJob(r *engine.Result, job string, deadline time.Time) *engine.Result 
 	st := engine.ExploreEnv(job, func(prefix []int) *engine.EnvRun { return RunRaw(cfg, prefix) }, engine.EnvCfg{Budget: cfg.Budget, Deadline: deadline, ShardI: i, ShardN: n})
 	st.Into(r)
 	r.Bound = fmt.Sprintf("deviation budget %d", cfg.Budget)
+	r.Recycle = runtime.NumGoroutine() > 100
 	return r
 }
 
